@@ -3,14 +3,16 @@ package vsched
 import (
 	"bytes"
 	"runtime"
+	"strings"
 	"sync"
 	"time"
 )
 
 // tracked goroutines started by rewritten `go` statements (free-running mode), for Quiesce.
 var (
-	trMu   sync.Mutex
-	trLive = map[uint64]bool{}
+	trMu       sync.Mutex
+	trLive     = map[uint64]bool{}
+	trStarting int // goroutines handed to the runtime that have not registered themselves yet
 )
 
 // Go replaces `go f()` in rewritten repository files.
@@ -29,10 +31,14 @@ func Go(f func()) {
 		defer Quiesce()
 	}
 	started := make(chan struct{})
+	trMu.Lock()
+	trStarting++
+	trMu.Unlock()
 	go func() {
 		id := curGoid()
 		trMu.Lock()
 		trLive[id] = true
+		trStarting--
 		trMu.Unlock()
 		close(started)
 		defer func() {
@@ -62,16 +68,30 @@ func Quiesce() {
 	for iter := 0; ; iter++ {
 		trMu.Lock()
 		n := len(trLive)
+		starting := trStarting
 		ids := make(map[uint64]bool, n)
 		for id := range trLive {
 			ids[id] = true
 		}
 		trMu.Unlock()
+		if starting > 0 {
+			// a goroutine has been created but is not registered yet (its creator is parked waiting for it)
+			stable = 0
+			runtime.Gosched()
+			continue
+		}
 		if n == 0 {
 			return
 		}
 		all := buf[:runtime.Stack(buf, true)]
+		if len(all) == len(buf) {
+			// truncated dump: some goroutines are not visible; retry with a larger buffer
+			buf = make([]byte, 2*len(buf))
+			stable = 0
+			continue
+		}
 		busy := false
+		found := 0
 		for _, blk := range bytes.Split(all, []byte("\n\n")) {
 			if !bytes.HasPrefix(blk, []byte("goroutine ")) {
 				continue
@@ -84,6 +104,7 @@ func Quiesce() {
 			if !ids[id] {
 				continue
 			}
+			found++
 			// " [status...]:"
 			j := bytes.IndexByte(blk[i:], ']')
 			if j < 0 {
@@ -91,13 +112,28 @@ func Quiesce() {
 				continue
 			}
 			st := string(blk[i+2 : i+j])
-			if len(st) >= 7 && (st[:7] == "running" || st[:7] == "runnabl") || len(st) >= 7 && st[:7] == "syscall" || len(st) >= 5 && st[:5] == "sleep" {
+			// only genuinely parked goroutines count as quiescent; every other status (running, runnable, syscall,
+			// sleep, IO wait, and transient runtime waits such as "GC assist wait" or "preempted") is busy
+			parked := false
+			for _, p := range []string{"chan receive", "chan send", "select", "semacquire", "sync.Mutex.Lock", "sync.RWMutex.Lock", "sync.RWMutex.RLock",
+				"sync.Cond.Wait", "sync.WaitGroup.Wait"} {
+				if strings.HasPrefix(st, p) {
+					parked = true
+				}
+			}
+			if strings.Contains(st, "(scan)") {
+				parked = false
+			}
+			if !parked {
 				busy = true
 			}
 		}
+		if found < n {
+			busy = true // a tracked goroutine is exiting (not in the dump any more but still registered)
+		}
 		if !busy {
 			stable++
-			if stable >= 2 {
+			if stable >= 3 {
 				return
 			}
 		} else {
